@@ -830,6 +830,10 @@ func (ctx Ctx) callExpr(s *ast.CallExpr) coq.Expr {
 		}
 	}
 	if isBuiltin("append") {
+		if len(s.Args) > 2 {
+			// only the first appended value would be translated
+			ctx.unsupported(s, "append of several values (append them one at a time)")
+		}
 		elemTy := sliceElem(ctx.typeOf(s.Args[0]).Underlying())
 		if s.Ellipsis == token.NoPos {
 			return coq.NewCallExpr(coq.GallinaIdent("SliceAppend"),
